@@ -26,7 +26,7 @@ Definition cok (x : ctx) : Prop :=
   (pre_close (k_loc x) = true -> k_ncl x = 0%nat) /\
   match mode_of x with
   | MFreed =>
-    k_nfree x = 1%nat /\ k_work x = 0%nat /\ k_wfin x = 0%nat /\ (k_loc x = LNone \/ k_loc x = LAccClose /\ k_fd x = true) /\
+    k_nfree x = 1%nat /\ k_work x = 0%nat /\ k_wfin x = 0%nat /\ (k_loc x = LNone /\ k_fd x = false \/ k_loc x = LAccClose /\ k_fd x = true) /\
     (k_ref x = 0 \/ k_pub x = false) /\ (k_nrel x <= 1)%nat
   | MWorkFin =>
     k_nfree x = 0%nat /\ k_loc x = LNone /\ k_ref x = 0 /\ k_work x = 0%nat /\ (k_wfin x <= 3)%nat /\
@@ -128,3 +128,71 @@ Lemma l_fdclose_w_ok x y : cok x -> l_fdclose_w x = Some y -> cok y.
 Proof. open_ctx x; unfold l_fdclose_w, rspec, rdes; simpl; destruct lc; simpl; try (intros; discriminate); destruct fr; destruct wf; local_tac. Qed.
 Lemma l_wfree_ok x y : cok x -> l_wfree x = Some y -> cok y.
 Proof. open_ctx x; unfold l_wfree, rspec, rdes; simpl; destruct lc; simpl; try (intros; discriminate); destruct fr; destruct wf; local_tac. Qed.
+
+(* which transitions leave the byte-stream bookkeeping alone *)
+Definition same_stream (x y : ctx) : Prop :=
+  k_conn y = k_conn x /\ k_got y = k_got x /\ k_eof y = k_eof x.
+Ltac same_tac :=
+  unfold same_stream, touch; simpl;
+  let E := fresh "E" in intros E; simpl in E;
+  repeat match type of E with
+         | (if ?b then _ else _) = _ => destruct b eqn:?; try discriminate
+         | (let (_, _) := ?p in _) = _ => destruct p eqn:?
+         | match ?n with O => _ | S _ => _ end = _ => destruct n eqn:?; try discriminate
+         | match ?n with KListen => _ | KConn => _ end = _ => destruct n eqn:?; try discriminate
+         end;
+  inversion E; subst; clear E;
+  repeat match goal with
+         | |- context [if ?b then _ else _] => destruct b eqn:?; simpl
+         end; auto.
+Lemma l_hand_same x y : l_hand x = Some y -> same_stream x y.
+Proof. destruct x; unfold l_hand; same_tac. Qed.
+Lemma l_use_same x y : l_use x = Some y -> same_stream x y.
+Proof. destruct x; unfold l_use; same_tac. Qed.
+Lemma l_shut_same x y : l_shut x = Some y -> same_stream x y.
+Proof. destruct x; unfold l_shut; same_tac. Qed.
+Lemma l_accepterr_same x y : l_accepterr x = Some y -> same_stream x y.
+Proof. destruct x; unfold l_accepterr; same_tac. Qed.
+Lemma l_clearpop_same x y : l_clearpop x = Some y -> same_stream x y.
+Proof. destruct x; unfold l_clearpop; same_tac. Qed.
+Lemma l_exitpop_same x y : l_exitpop x = Some y -> same_stream x y.
+Proof. destruct x; unfold l_exitpop; same_tac. Qed.
+Lemma l_fdclose_loop_same x y : l_fdclose_loop x = Some y -> same_stream x y.
+Proof. destruct x; unfold l_fdclose_loop; same_tac. Qed.
+Lemma l_free_loop_same x y : l_free_loop x = Some y -> same_stream x y.
+Proof. destruct x; unfold l_free_loop; same_tac. Qed.
+Lemma l_free_acc_same x y : l_free_acc x = Some y -> same_stream x y.
+Proof. destruct x; unfold l_free_acc; same_tac. Qed.
+Lemma l_fdclose_acc_same x y : l_fdclose_acc x = Some y -> same_stream x y.
+Proof. destruct x; unfold l_fdclose_acc; same_tac. Qed.
+Lemma l_wshut_same x y : l_wshut x = Some y -> same_stream x y.
+Proof. destruct x; unfold l_wshut; same_tac. Qed.
+Lemma l_wrelease_same x y : l_wrelease x = Some y -> same_stream x y.
+Proof. destruct x; unfold l_wrelease; same_tac. Qed.
+Lemma l_fdclose_w_same x y : l_fdclose_w x = Some y -> same_stream x y.
+Proof. destruct x; unfold l_fdclose_w; same_tac. Qed.
+Lemma l_wfree_same x y : l_wfree x = Some y -> same_stream x y.
+Proof. destruct x; unfold l_wfree; same_tac. Qed.
+Lemma l_reg_wake_same x ok y : l_reg_wake x ok = Some y -> same_stream x y.
+Proof. destruct x; unfold l_reg_wake; same_tac. Qed.
+Lemma l_reg_acc_same x ok y : l_reg_acc x ok = Some y -> same_stream x y.
+Proof. destruct x; unfold l_reg_acc; same_tac. Qed.
+Lemma l_close_same x hup y : l_close x hup = Some y -> same_stream x y.
+Proof. destruct x; unfold l_close; same_tac. Qed.
+Lemma l_release_same x y r : l_release x = Some (y, r) -> same_stream x y.
+Proof. destruct x; unfold l_release; same_tac. Qed.
+Lemma l_retain_same x y r : l_retain x = Some (y, r) -> same_stream x y.
+Proof. destruct x; unfold l_retain; same_tac. Qed.
+Lemma l_wrel_same x y r : l_wrel x = Some (y, r) -> same_stream x y.
+Proof. destruct x; unfold l_wrel; same_tac. Qed.
+(* the three that do touch it *)
+Lemma l_announce_fresh x n y : cok x -> l_announce x n = Some y -> k_conn y = n /\ k_got y = [] /\ k_eof y = false.
+Proof.
+  open_ctx x; unfold l_announce, cok, touch; simpl. destruct lc; simpl; try (intros; discriminate).
+  intros H E. destruct H as (_ & _ & _ & _ & _ & Hp & _). destruct (Hp eq_refl) as (? & ? & ?). subst.
+  destruct ((0 <? nr)%nat || fr)%bool; inversion E; subst; simpl; auto.
+Qed.
+Lemma l_rd_stream x bs y : l_rd x bs = Some y -> k_conn y = k_conn x /\ k_got y = k_got x ++ bs /\ k_eof y = k_eof x.
+Proof. destruct x; unfold l_rd; same_tac. Qed.
+Lemma l_eof_stream x full y : l_eof x full = Some y -> k_conn y = k_conn x /\ k_got y = k_got x /\ k_eof y = (k_eof x || full)%bool.
+Proof. destruct x; unfold l_eof; same_tac. Qed.
